@@ -293,6 +293,23 @@ example : allDone (runSched ⟨true, false, 1⟩
       (mkSched [0,0,0,0,0,1,0,0,0,1,1,1,0,0,1,2,2,2,0,0,0,2,2,2,0,1,1,2,2,1,0,0,1,1,0,0,0,0])).1 = true :=
   close_returns_no_pause _ _ _ (by intro i h; simp at h) (reach_runSched _ Reach.init) (by decide)
 
+/-- **C17.12a close_never_blocks_wait** — repaired `stop()`, `wait` true or false, EVERY script in
+which no player still in its loop is paused (has its `go` event cleared) whenever `close` is
+called: no run ends inside `close`; a run can only get stuck in a `join` call of the script
+itself, on a player the script has paused. -/
+theorem close_never_blocks_wait {cfg : Cfg} {script : List Cmd} {s : State}
+    (hf : cfg.fixed = true) (hu : UnpausedAtClose cfg script) (hr : Reach cfg script s)
+    (ht : terminal cfg s = true) :
+    s.mpc = .done ∨ ∃ i p, s.mpc = .jJoin i ∧ Cmd.join i ∈ script ∧ s.players[i]? = some p ∧
+      p.pc = .goWait ∧ p.go = false := by
+  rcases terminal_shape hr ht with h | ⟨i, p, hm, hp, hpc, hgo⟩
+  · exact Or.inl h
+  · rcases hm with hm | hm
+    · exact Or.inr ⟨i, p, hm, (scr_reach hr).cur _ (by rw [hm]; rfl), hp, hpc, hgo⟩
+    · rcases gc_reach hf hu hr (by rw [hm]; rfl) i p hp with h | h
+      · rw [hgo] at h; cases h
+      · rw [hpc] at h; cases h
+
 /-- **C17.12 close_returns_wait** — the `wait=True` clause, repaired `stop()` (it holds for
 `wait=False` too): if no player that is still in its loop is paused (has its `go` event cleared)
 whenever the script calls `close` — nothing can resume it afterwards, the control script being
@@ -302,13 +319,9 @@ completed.  Without the hypothesis `close(wait=True)` blocks for ever: `deadlock
 theorem close_returns_wait (cfg : Cfg) (script : List Cmd) (s : State) (hf : cfg.fixed = true)
     (hu : UnpausedAtClose cfg script) (hj : ∀ i, Cmd.join i ∉ script) (hr : Reach cfg script s)
     (ht : terminal cfg s = true) : s.mpc = .done := by
-  rcases terminal_shape hr ht with h | ⟨i, p, hm, hp, hpc, hgo⟩
+  rcases close_never_blocks_wait hf hu hr ht with h | ⟨i, _, _, hmem, _⟩
   · exact h
-  · rcases hm with hm | hm
-    · exact absurd ((scr_reach hr).cur _ (by rw [hm]; rfl)) (hj i)
-    · rcases gc_reach hf hu hr (by rw [hm]; rfl) i p hp with h | h
-      · rw [hgo] at h; cases h
-      · rw [hpc] at h; cases h
+  · exact absurd hmem (hj i)
 
 /-- **C17.12b close_returns_wait_checked** — the hypothesis of `close_returns_wait` as a decidable
 check of the script alone: the `go` events are written by the control script only, so whether a
